@@ -463,14 +463,20 @@ where
     Ret: FromIterator<T> + 'static,
 {
     move |reader, endian, args| {
-        let mut container = core::iter::empty::<T>().collect::<Ret>();
-
-        // verification profile: the integer fast paths (type-id specialisations with
-        // identical results) are removed; every element type takes the generic path.
-        let _ = &mut container;
-        core::iter::repeat_with(|| read(reader, endian, args.clone()))
-            .take(n)
-            .collect()
+        // verification profile: the integer fast paths (type-id specialisations with identical
+        // results) are removed, and the generic path
+        //     repeat_with(|| read(..)).take(n).collect::<Result<Ret, _>>()
+        // is written as the loop it denotes: read n items, stop at the first error and return it.
+        // (`collect` into `Result` keeps the pending error in a `GenericShunt` whose drop glue -
+        // `Option<Result<Infallible, Error>>`, hence `Box<dyn CustomError>` - CBMC explores for every
+        // type that owns a vtable in the program.)
+        let mut items: Vec<T> = Vec::new();
+        let mut i = 0;
+        while i < n {
+            items.push(read(reader, endian, args.clone())?);
+            i += 1;
+        }
+        Ok(items.into_iter().collect())
     }
 }
 
